@@ -156,15 +156,35 @@ def gen_output_card(rng):
         th["PTO"] = 0
         if th.get("PTODIS") is not None:
             th["PTODIS"] = 0
+    nnlo = rng.random() < 0.1
+    if nnlo:
+        # NNLO is where the insertion order of the order keys stops being the sorted order
+        # ((2,0,1,0) precedes (2,0,0,1)); kept affordable: 5-node grid, massless, few points
+        th["PTO"] = 2
+        th.pop("PTODIS", None)
+        th["FNS"] = "ZM-VFNS"
+        th["TMC"] = 0
+        ob["interpolation_xgrid"] = list(cards.GRIDS_LOG[0])
+        ob["interpolation_is_log"] = True
+        ob["interpolation_polynomial_degree"] = rng.randint(1, 3)
+        sv = rng.choice(["TT", "TF", "FT", "FF", "TT"])
+        th["RenScaleVar"] = sv[0] == "T"
+        th["FactScaleVar"] = sv[1] == "T"
     pools = cards.gen_pools(rng, th, ob)
     n = cards.wchoice(rng, [(1, 3), (2, 4), (3, 2)])
+    if nnlo:
+        n = 1
     names = cards.gen_obs_names(rng, th, ob, n, wild=0.0)
+    if nnlo:
+        names = [rng.choice(["F2_light", "FL_light", "F2_total", "F3_light"])]
     # make sure cross sections and structure functions are mixed often
     if rng.random() < 0.5 and not any(cards.is_xs(x) for x in names):
         names.append(rng.choice(cards.XS_CC if ob["prDIS"] == "CC" else cards.XS_NC))
     obs = []
     for name in names:
         npts = cards.wchoice(rng, [(0, 0.8), (1, 4), (2, 3), (3, 1.5)])
+        if nnlo:
+            npts = 1 if not cards.is_xs(name) else 0
         pts = cards.gen_points(rng, pools, name, npts, th, plant=False) if npts else []
         obs.append([name, pts])
     return {"theory": th, "obs": ob, "observables": obs}
@@ -354,6 +374,12 @@ class Execution:
                 finally:
                     self.per_op_sites.append(dict(self.sched.counts))
                     self.sched.end_op()
+                if self.fs.dead and not crashed:
+                    # the code under test swallowed the unwinding (e.g. `return` in a `finally`);
+                    # a dead process cannot continue whatever the code does: restart anyway
+                    crashed = True
+                    self.probes["crash_unwinding_swallowed"] += 1
+                    self.violations = [v for v in self.violations if v["at_op"] != i]
                 if crashed:
                     self.after_crash(i, op)
                 if self.violations:
@@ -487,7 +513,16 @@ class Execution:
             if f is None:
                 self.skipped += 1
                 return
-            os.replace(self.path(op["path"]), self.path(op["to"]))
+            try:
+                os.replace(self.path(op["path"]), self.path(op["to"]))
+            except FileNotFoundError:
+                if f["state"] == ACKED:
+                    self.violation("acked-file-missing", i, [op["path"]],
+                                   "a dump to this path returned normally but no file exists", self.tags_for(f))
+                    return
+                self.files.pop(op["path"], None)
+                self.skipped += 1
+                return
             self.files[op["to"]] = self.files.pop(op["path"])
             self.probes["rename"] += 1
             self.log(i, kind, op["path"], op["to"])
